@@ -514,14 +514,62 @@ func runC14(c c14Case) Verdict { return decideC14(c, true) }
 
 func runC14ParserOnly(c c14Case) Verdict { return decideC14(c, false) }
 
+// copyOutcome makes a copy that shares nothing with the result the parser returned.
+func copyOutcome(o parseOutcome) parseOutcome {
+	if o.Res == nil {
+		return o
+	}
+	res := &markup.ParseResult{Text: o.Res.Text}
+	if o.Res.Attributes != nil {
+		res.Attributes = make([]markup.Attribute, len(o.Res.Attributes))
+		for i, a := range o.Res.Attributes {
+			res.Attributes[i] = a
+			if a.Properties != nil {
+				res.Attributes[i].Properties = make(map[string]markup.Value, len(a.Properties))
+				for k, v := range a.Properties {
+					res.Attributes[i].Properties[k] = v
+				}
+			}
+		}
+	}
+	return parseOutcome{Res: res, Err: o.Err}
+}
+
+// scribble overwrites everything a caller can reach in a result it was given (the result belongs to the caller).
+func scribble(o parseOutcome) {
+	if o.Res == nil {
+		return
+	}
+	for i := range o.Res.Attributes {
+		a := &o.Res.Attributes[i]
+		if a.Properties != nil {
+			a.Properties["scribbled"] = markup.Value{StringValue: "by the caller", ValueType: markup.ValueTypeString}
+			for k := range a.Properties {
+				a.Properties[k] = markup.Value{StringValue: "overwritten", ValueType: markup.ValueTypeString}
+			}
+		}
+		a.Name, a.Position, a.Length, a.SourcePosition = "scribbled", -7, -7, -7
+	}
+	if cap(o.Res.Attributes) > len(o.Res.Attributes) {
+		_ = append(o.Res.Attributes, markup.Attribute{Name: "appended by the caller"})
+	}
+	o.Res.Text = "scribbled"
+}
+
 func decideC14(c c14Case, runnerLevel bool) Verdict {
-	fresh, p1 := parseWith(&markup.LineParser{}, c.Probe)
+	freshLive, p1 := parseWith(&markup.LineParser{}, c.Probe)
 	if p1 != nil {
 		return Verdict{Discard: "probe panics on a fresh parser (C15's business)"}
 	}
+	fresh := copyOutcome(freshLive)
 	reused := &markup.LineParser{}
 	failing := 0
-	for _, h := range c.History {
+	type handedOut struct {
+		line       string
+		live, copy parseOutcome
+	}
+	var earlier []handedOut
+	for i, h := range c.History {
 		o, p := parseWith(reused, h)
 		if p != nil {
 			return Verdict{Discard: "history line panics (C15's business)"}
@@ -529,6 +577,21 @@ func decideC14(c c14Case, runnerLevel bool) Verdict {
 		if o.Err != "" {
 			failing++
 		}
+		// results handed out before are values of their own: parsing another line must not change them
+		for _, e := range earlier {
+			if !reflect.DeepEqual(e.live, e.copy) {
+				return failf("the result of ParseMarkup(%q) changed after it was returned, while the same parser parsed %q:\n when returned: %s\n now:           %s",
+					e.line, c.History[len(earlier):i+1], showOutcome(e.copy), showOutcome(e.live))
+			}
+		}
+		earlier = append(earlier, handedOut{h, o, copyOutcome(o)})
+	}
+	// the caller owns the results: whatever it does to them must not reach later parses either
+	if len(c.History)%2 == 1 {
+		for _, e := range earlier {
+			scribble(e.live)
+		}
+		scribble(freshLive)
 	}
 	after, p2 := parseWith(reused, c.Probe)
 	if p2 != nil {
@@ -537,10 +600,21 @@ func decideC14(c c14Case, runnerLevel bool) Verdict {
 	if !reflect.DeepEqual(fresh, after) {
 		return failf("ParseMarkup(%q) depends on the parser's history %q:\n fresh:  %s\n reused: %s", c.Probe, c.History, showOutcome(fresh), showOutcome(after))
 	}
-	// a second parse of the same line on the same parser
+	// a second parse of the same line on the same parser (the first result is kept, and must stay what it was)
+	afterCopy := copyOutcome(after)
 	again, p3 := parseWith(reused, c.Probe)
 	if p3 != nil || !reflect.DeepEqual(fresh, again) {
 		return failf("ParseMarkup(%q) twice on one parser gives different results:\n first:  %s\n second: %s", c.Probe, showOutcome(fresh), showOutcome(again))
+	}
+	if !reflect.DeepEqual(after, afterCopy) {
+		return failf("the result of ParseMarkup(%q) changed after it was returned, while the same parser parsed the same line again:\n when returned: %s\n now:           %s", c.Probe, showOutcome(afterCopy), showOutcome(after))
+	}
+	if len(c.History)%2 == 1 {
+		// and a parser created after the caller scribbled over earlier results
+		late, p4 := parseWith(&markup.LineParser{}, c.Probe)
+		if p4 != nil || !reflect.DeepEqual(fresh, late) {
+			return failf("ParseMarkup(%q) on a new parser depends on what the caller did to results of earlier lines %q:\n before: %s\n after:  %s", c.Probe, c.History, showOutcome(fresh), showOutcome(late))
+		}
 	}
 	cls := []string{fmt.Sprintf("history=%d", min(len(c.History), 4)), fmt.Sprintf("failing-history=%d", min(failing, 3))}
 
@@ -562,6 +636,20 @@ func decideC14(c c14Case, runnerLevel bool) Verdict {
 			return failf("runner: Line of %q differs after the prefix %q:\n alone: %+v\n after: %+v", c.Probe, hist, alone, with)
 		}
 		cls = append(cls, "runner-level")
+		// the lines as the options of one group: one element holds several results of the runner's parser at once
+		if len(hist) > 0 && alone != nil {
+			opts, errOpts := optionLinesOf(append(append([]string{}, hist...), c.Probe))
+			if errOpts == "" {
+				first, errFirst := lastLineOf(nil, hist[0])
+				if got := opts[len(opts)-1]; !reflect.DeepEqual(alone, got) {
+					return failf("runner: as the last option after the options %q, the Line of %q differs from the line shown alone:\n alone:  %+v\n option: %+v", hist, c.Probe, alone, got)
+				}
+				if errFirst == "" && first != nil && !reflect.DeepEqual(first, opts[0]) {
+					return failf("runner: as the first option of the group %q, the Line of %q differs from the line shown alone:\n alone:  %+v\n option: %+v", append(hist, c.Probe), hist[0], first, opts[0])
+				}
+				cls = append(cls, "option-group")
+			}
+		}
 	}
 	markerHistory := false
 	for _, h := range c.History {
@@ -608,6 +696,28 @@ func lastLineOf(prefix []string, probe string) (*ysgo.Line, string) {
 		}
 	}
 	return last, lastErr
+}
+
+// optionLinesOf runs a one-node script whose only statement is an option group with the given labels.
+func optionLinesOf(labels []string) ([]*ysgo.Line, string) {
+	src := "title: Start\n---\n"
+	for _, l := range labels {
+		src += "-> " + l + "\n"
+	}
+	src += "===\n"
+	dr, err := ysgo.NewDialogueRunner(nil, "abc", strings.NewReader(src))
+	if err != nil {
+		return nil, "load: " + err.Error()
+	}
+	el, err := dr.Next(0)
+	if err != nil || el == nil || len(el.Options) != len(labels) {
+		return nil, "no option group"
+	}
+	out := make([]*ysgo.Line, len(labels))
+	for i := range el.Options {
+		out[i] = el.Options[i].Line
+	}
+	return out, ""
 }
 
 func genC14(t *rapid.T) c14Case {
